@@ -1,11 +1,17 @@
 import Gallia.Lib.Proto
 import Gallia.Model.SessionScan
+import Gallia.Model.SessionScanS
 open Gallia Gallia.Proto Gallia.SessionScan
 
 /-
   line protocol (one case per line, fields separated by single spaces):
     scan d=<n> skip=<csv|-> th=<0|1> rs=<n|-> hk=<0|1> mr=<n> rst=<p|s|n<dec>> g=<edges|-> [gh=<edges|->]
          [hp=<csv of 2-byte hook PDUs as numbers|->] [hq=<csv|->] [boot=<n>]
+    scans <the fields of scan> fam=<graph|s3|locked> pb=<ping budget> [s3ms=<ms>] [s3n=<requests>] [lk=<a>b,...>] [pn=<n>]
+          [fl=<s|b|-,...>]
+      the same scanner against a stateful ECU (Model/SessionScanS.lean): graph ECU, S3 timer, security-locked edges; wrapped
+      into ResponsePending frames (`(session + request code) % (pn + 1)` of them) and a script of sporadic faults
+      (s = no answer, b = busyRepeatRequest, - = handled)
       gh: the ECU's answers to a hooked attempt (default: the same graph); hp / hq: requests of set_session_pre /
       set_session_post of the ECU class; boot: pings left unanswered after an accepted reset
     spec d=<n> skip=<csv|-> g=<edges|-> [gh=.. hk=.. hp=..] rep=<s@a.b.c;...|->   (evaluated on the effective graph `edge`)
@@ -112,9 +118,57 @@ def runSpec (kv : List (String × String)) : String :=
     | _ => true
   s!"reach={csv (reachSet g skip d)} ident={csv (identSet g skip d)} bad={semi bad}"
 
+def wireCode : Wire → Nat
+  | .dsc u => u
+  | .reset l => l
+  | .ping => 0
+  | .hook h => h
+
+def parseLocked (s : String) : List (Nat × Nat) :=
+  if s == "-" then [] else (s.splitOn ",").filterMap fun e => match e.splitOn ">" with
+    | [a, b] => match a.toNat?, b.toNat? with
+      | some x, some y => some (x, y)
+      | _, _ => none
+    | _ => none
+
+def parseFaults (s : String) : List (Option Ans) :=
+  if s == "-" then [] else (s.splitOn ",").map fun e =>
+    if e == "s" then some .silent else if e == "b" then some (.nrc NRC_BUSY) else none
+
+def showS {σ} (L : Link σ) (x : StS σ) : String :=
+  let st := x.toSt L
+  let tr := (transitions st).map fun (s, stack) => s!"{s}@{dots stack}"
+  let ng := (negReported st).map fun (s, stack, code) => s!"{s}@{dots stack}@{code}"
+  let probesOk := st.reqs.all fun r => r.kind != .probe || r.cur == r.top
+  s!"exit={exitCode st} result={csv (result st)} trans={semi tr} neg={semi ng} cur={st.cur} client={x.client} track={if probesOk then 1 else 0} reqs={",".intercalate (st.reqs.reverse.map showReq)}"
+
+def runWrapped {σ} (c : CfgS) (O : Oracle σ) (e : σ) (pn : Nat) (fl : List (Option Ans)) : String :=
+  let O1 := withPending O (fun s w => (O.sessionOf s + wireCode w) % (pn + 1))
+  let L := linkOf (withFaults O1)
+  showS L (scanS c L (e, fl))
+
+def runScanS (kv : List (String × String)) : String :=
+  let c0 := mkCfg kv
+  let c : CfgS := { toCfg := c0, pingBudget := (field kv "pb").toNat?.getD 2 }
+  let t := parseGraph (field kv "g")
+  let ra := (parseAns (field kv "rst")).getD .pos
+  let th := if field kv "gh" == "-" then t else parseGraph (field kv "gh")
+  let boot := (field kv "boot").toNat?.getD 0
+  let E : Ecu := { g := graphFn t, rst := fun _ => ra, gh := graphFn th, boot := fun _ => boot }
+  let pn := (field kv "pn").toNat?.getD 0
+  let fl := parseFaults (field kv "fl")
+  match field kv "fam" with
+  | "s3" =>
+    runWrapped c (s3Oracle E { s3Ms := (field kv "s3ms").toNat?.getD 0, maxReqs := (field kv "s3n").toNat?.getD 0 }) (1, 0) pn fl
+  | "locked" =>
+    let lk := parseLocked (field kv "lk")
+    runWrapped c (lockedOracle E (fun p u => lk.contains (p, u))) (1, false) pn fl
+  | _ => runWrapped c (graphOracle c0 E) {} pn fl
+
 def step (line : String) : String :=
   match words line with
   | "scan" :: rest => runScan (parseKv rest)
+  | "scans" :: rest => runScanS (parseKv rest)
   | "spec" :: rest => runSpec (parseKv rest)
   | _ => "bad-op"
 
